@@ -279,30 +279,43 @@ fn health_history(h: &[HEv]) -> Result<Option<(String, String)>, String> {
             }
         }
     }
-    // quiescence: the loop keeps being driven (as the real worker loop does every 100 ms)
-    for _ in 0..3 {
+    // quiescence: the loop keeps being driven (as the real worker loop does every 100 ms). The
+    // kernel may complete a loopback handshake a little after connect() returned, so the loop is
+    // driven until every connection has been served and closed, or a deadline passes; a connection
+    // the server leaves behind stays unserved however long the loop is driven.
+    for s in conns.iter_mut() {
+        s.set_nonblocking(true).unwrap();
+    }
+    let mut got: Vec<Vec<u8>> = vec![vec![]; conns.len()];
+    let mut eof: Vec<bool> = vec![false; conns.len()];
+    let deadline = std::time::Instant::now() + Duration::from_secs(4);
+    let mut rounds = 0;
+    loop {
         if let Err(p) = srv.step() {
             return Ok(Some(("panic".into(), p)));
         }
-    }
-    for (i, s) in conns.iter_mut().enumerate() {
-        s.set_read_timeout(Some(Duration::from_millis(300))).unwrap();
-        let mut got = vec![];
-        let mut buf = [0u8; 256];
-        let mut eof = false;
-        loop {
-            match s.read(&mut buf) {
-                Ok(0) => {
-                    eof = true;
-                    break;
+        rounds += 1;
+        for (i, s) in conns.iter_mut().enumerate() {
+            let mut buf = [0u8; 256];
+            while !eof[i] {
+                match s.read(&mut buf) {
+                    Ok(0) => eof[i] = true,
+                    Ok(n) => got[i].extend_from_slice(&buf[..n]),
+                    Err(e) if e.kind() == std::io::ErrorKind::Interrupted => continue,
+                    Err(_) => break,
                 }
-                Ok(n) => got.extend_from_slice(&buf[..n]),
-                Err(e) if e.kind() == std::io::ErrorKind::Interrupted => continue,
-                Err(_) => break,
             }
         }
-        if got != HTTP_RESPONSE.as_bytes() || !eof {
-            return Ok(Some(("health-connection-not-served".into(), format!("connection #{} of {}: got {} bytes, closed={}", i, h.iter().filter(|e| **e == HEv::Connect).count(), got.len(), eof))));
+        if rounds >= 3 && (eof.iter().all(|e| *e) || std::time::Instant::now() > deadline) {
+            break;
+        }
+        if rounds >= 3 {
+            std::thread::sleep(Duration::from_millis(10));
+        }
+    }
+    for i in 0..conns.len() {
+        if got[i] != HTTP_RESPONSE.as_bytes() || !eof[i] {
+            return Ok(Some(("health-connection-not-served".into(), format!("connection #{} of {}: got {} bytes, closed={} after {} idle iterations of the event loop", i, h.iter().filter(|e| **e == HEv::Connect).count(), got[i].len(), eof[i], rounds))));
         }
     }
     for (c, req) in &udp {
